@@ -73,6 +73,12 @@ def order_tags(prog):
                 for s2 in b[i + 1:i + 3]:
                     if s2.k in ("for", "fordyn", "forin") and writes(s2.body, s.base):
                         tags.add("loop-store-forwarding")
+                # value loaded from a storage/transient variable before a loop that updates that variable
+                if s.e.k in ("self", "tra"):
+                    src_base = ("sto" if s.e.k == "self" else "tra", s.e.name)
+                    for s2 in b[i + 1:i + 3]:
+                        if s2.k in ("for", "fordyn", "forin") and writes(s2.body, src_base):
+                            tags.add("loop-load-forwarding")
             for x in s_blocks(s):
                 vb(x)
     for f in prog.ints + prog.exts:
@@ -113,7 +119,7 @@ def report_diff(ctx, it, cfg, diff, also=(), seen_keys=None):
         if len(tags) == 1:
             # the shrunk program is an instance of a shape with a known root cause: stable key per (pipeline, shape)
             tag = sorted(tags)[0]
-            key = f"C01:{pipe}:{tag}" if tag == "loop-store-forwarding" else f"C01:{pipe}:order:{tag}"
+            key = f"C01:{pipe}:{tag}" if tag.startswith("loop-") else f"C01:{pipe}:order:{tag}"
         if it.get("key"):
             key = it["key"]
         detail["order_sensitive_shapes"] = sorted(tags)
